@@ -50,7 +50,9 @@ type Agglayer struct {
 	Calls     map[string]int
 	OnCall    func(method string) // observer (used to bound VerifInit)
 	Trace     func(format string, args ...any)
-	submitted int
+	// OmitPrevLER: the headers the service returns do not carry prev_local_exit_root (the field is optional in the API)
+	OmitPrevLER bool
+	submitted   int
 }
 
 // EmptyLER is the root of the empty exit tree (the start LER when the rollup manager reports zero).
@@ -241,8 +243,12 @@ func short(h common.Hash) string { return h.Hex()[:10] }
 
 func (a *Agglayer) header(e *Entry) *agglayertypes.CertificateHeader {
 	prev := e.PrevLER
-	return &agglayertypes.CertificateHeader{NetworkID: L2Network, Height: e.Height, CertificateID: e.ID,
+	h := &agglayertypes.CertificateHeader{NetworkID: L2Network, Height: e.Height, CertificateID: e.ID,
 		PreviousLocalExitRoot: &prev, NewLocalExitRoot: e.NewLER, Status: e.Status, Metadata: e.Metadata}
+	if a.OmitPrevLER {
+		h.PreviousLocalExitRoot = nil
+	}
+	return h
 }
 
 // GetCertificateHeader returns the current header of the most recent submission with this id.
